@@ -277,3 +277,41 @@ def path_eq_implies_equal_hash(c, kinds):
     c.set(p2, '_closed', c.bool('closed2'))
     e = c.py_eq(p1, p2)
     c.ensures('a==b=>hash(a)==hash(b)', ops.Implies(e, c.py_eq(c.hash(p1), c.hash(p2))))
+
+
+@contract('C16', 'path.QuadraticBezier.length', budget=120)
+def quadratic_length_after_reassignment_answers_like_a_fresh_segment(c):
+    """length() requested, a control point reassigned, length() requested again: the same value a
+    newly built QuadraticBezier of the current points returns; a reversed() copy taken before or
+    after the reassignment answers for its own points.  (Where the closed form is undefined in
+    real arithmetic -- collinear points -- nothing is claimed here: that is C06's matter.)"""
+    P, seg = mkseg(c, 3)
+
+    def L(s):
+        out = c.outcome(lambda: c.callm(s, 'length'))
+        if out.kind != 'ok':
+            c.cut()
+        return out.value
+    first = L(seg)
+    rev_before = c.callm(seg, 'reversed')
+    Q1 = c.cplx('Q1')
+    c.set(seg, 'control', Q1)
+    rev_after = c.callm(seg, 'reversed')
+    fresh = c.new('path.QuadraticBezier', P[0], Q1, P[2])
+    c.ensures('whole-length-after-reassignment', ops.eq(L(seg), L(fresh)))
+    c.ensures('reversed-copy-taken-after-the-reassignment-answers-for-the-new-points',
+              ops.eq(L(rev_after), L(c.new('path.QuadraticBezier', P[2], Q1, P[0]))))
+    c.ensures('reversed-copy-taken-before-keeps-the-old-length', ops.eq(L(rev_before), L(c.new('path.QuadraticBezier', P[2], P[1], P[0]))))
+
+
+@contract('C16', 'path.Line.length')
+def line_after_reassignment_answers_like_a_fresh_segment(c):
+    P, seg = mkseg(c, 2)
+    t = c.real('t')
+    c.callm(seg, 'length')
+    z = c.cplx('z')
+    c.set(seg, 'end', z)
+    fresh = c.new('path.Line', P[0], z)
+    c.ensures('length', ops.eq(c.callm(seg, 'length'), c.callm(fresh, 'length')))
+    c.ensures('point', ops.eq(c.callm(seg, 'point', t), c.callm(fresh, 'point', t)))
+    c.ensures('==', c.py_eq(seg, fresh))
